@@ -55,8 +55,20 @@ def coq_files():
         return [l.strip() for l in f if l.strip().endswith(".v")]
 
 
-def build_coq(clean=False):
-    """Full .vo build of the development through coq_makefile (never -vos)."""
+MODEL_FILES = ["Base", "Gen", "MReduce", "MRounding", "MParams", "MKeccak", "MNtt", "MPoly", "MPolyvec", "MPacking",
+               "MSign", "MSha2", "MApi"]
+
+
+def regenerate_gen():
+    """Run the source translator (constants, tables, Keccak body) so the theorems are re-checked
+    against what /repo says now. Returns a note for the evidence file."""
+    with Lock("coq"):
+        rc, out = sh([sys.executable, os.path.join(VERIF, "tools", "gen_from_src.py")])
+    return out.strip()
+
+
+def build_coq(targets=None, clean=False):
+    """Full .vo build (never -vos) of the given targets and their dependency cone through coq_makefile."""
     with Lock("coq"):
         if clean:
             sh("rm -f *.vo *.vok *.vos *.glob .*.aux Makefile Makefile.conf .Makefile.d", cwd=COQ)
@@ -65,9 +77,10 @@ def build_coq(clean=False):
             rc, out = sh("coq_makefile -f _CoqProject -o Makefile", cwd=COQ)
             if rc:
                 raise BuildError("coq_makefile", out)
-        rc, out = sh("timeout 3000 make -j%d" % NPROC, cwd=COQ, timeout=3100)
+        tg = " ".join(targets) if targets else ""
+        rc, out = sh("timeout 3000 make -j%d %s" % (NPROC, tg), cwd=COQ, timeout=3100)
         if rc:
-            raise BuildError("coq build (a theorem or model file no longer checks)", out[-6000:])
+            raise BuildError("coq build of %s (a theorem or model file no longer checks)" % (tg or "all"), out[-6000:])
         return out
 
 
@@ -77,7 +90,7 @@ def build_model():
         os.makedirs(OCAMLDIR, exist_ok=True)
         ex = os.path.join(COQ, "extract")
         srcs = [os.path.join(ex, f) for f in ("Extract.v", "driver.ml", "dispatch.ml", "main.ml")]
-        vos = [os.path.join(COQ, f[:-2] + ".vo") for f in coq_files()]
+        vos = [os.path.join(COQ, f + ".vo") for f in MODEL_FILES]
         stamp = os.path.join(OCAMLDIR, "modelrun")
         newest = max(os.path.getmtime(p) for p in srcs + [v for v in vos if os.path.exists(v)])
         if os.path.exists(stamp) and os.path.getmtime(stamp) >= newest:
@@ -183,9 +196,10 @@ def audit_props(pid):
 # ---------------------------------------------------------------------------------------------
 
 class Case:
-    __slots__ = ("fn", "copy", "args", "tags", "exact", "skip_release")
+    __slots__ = ("fn", "copy", "args", "tags", "exact", "skip_release", "aux")
 
-    def __init__(self, fn, copy, args, tags=(), exact=True, skip_release=False):
+    def __init__(self, fn, copy, args, tags=(), exact=True, skip_release=False, aux=None):
+        self.aux = aux
         self.fn, self.copy = fn, copy
         self.args = [fmt_arg(a) for a in args]
         self.tags = tuple(tags)
@@ -341,7 +355,12 @@ def run_property(mod, pid, tier, seed, replay=None):
     # 1. proofs
     proofs_ok = True
     try:
-        build_coq(clean=(tier == "thorough" and os.environ.get("VERIF_NOCLEAN") is None and False))
+        cov["translator"] = regenerate_gen()
+        build_coq([f + ".vo" for f in MODEL_FILES])
+    except BuildError as e:
+        rep.violation(e.what, {"broken": [e.what], "log": e.log}, False)
+    try:
+        build_coq(["Prop_%s.vo" % pid])
         thms, discharged, problems, axioms = audit_props(pid)
         problems += audit_sources()
         cov["obligations"] = max(len(thms), 1)
@@ -396,7 +415,8 @@ def execute(mod, rep, cov, cases, tier, rng, verbose=False):
     tmo = getattr(mod, "TIMEOUT", {}).get(tier, 600)
     t0 = time.time()
     with ThreadPoolExecutor(max_workers=3) as ex:
-        fm = ex.submit(run_runner, MODELRUN, lines, NPROC, tmo)
+        mlines = [l for l, c in zip(lines, cases) if "crate-only" not in c.tags]
+        fm = ex.submit(run_runner, MODELRUN, mlines, NPROC, tmo)
         fd = ex.submit(run_runner, DVH_DEV, lines, max(2, NPROC // 2), tmo)
         rel_lines = [l for l, c in zip(lines, cases) if not c.skip_release]
         fr = ex.submit(run_runner, DVH_REL, rel_lines, max(2, NPROC // 2), tmo)
@@ -417,6 +437,8 @@ def execute(mod, rep, cov, cases, tier, rng, verbose=False):
             hist[t] = hist.get(t, 0) + 1
         if verbose:
             print("case %d %s %s\n  model  : %s\n  dev    : %s\n  release: %s" % (i, c.fn, c.copy, mo, do, ro))
+        if "crate-only" in c.tags:
+            mo = do
         if mo is None or do is None:
             continue
         if nontriv(c, do):
